@@ -274,6 +274,27 @@ func genArg(t *rapid.T, p Param, class string) Arg {
 	case cConf:
 		v = conf()
 	case cNonConf, cNonConfMk, cNonConfUnk, cNonConfNul:
+		if p.T.K != spec.KDynamic && !isLeafType(p.T) && rapid.IntRange(0, 3).Draw(t, "dynhole") == 0 {
+			// the parameter type with a placeholder somewhere below the top:
+			// a placeholder in the GIVEN type is not a wildcard, so this does
+			// not conform although every concrete part matches
+			if wt, ok := dynHole(t, p.T); ok && !wt.Conforms(p.T) {
+				switch class {
+				case cNonConfUnk:
+					v = spec.UnknownOf(wt)
+				case cNonConfNul:
+					v = spec.NullOf(wt)
+				default:
+					v = holeValue(t, wt)
+					if class == cNonConfMk {
+						v = forceMarks(t, v)
+					}
+				}
+				if !v.T.Conforms(p.T) {
+					return Arg{Class: class, V: v}
+				}
+			}
+		}
 		wt, ok := nonConfType(t, p.T)
 		if !ok {
 			class = cConf
@@ -455,4 +476,88 @@ func genCase(t *rapid.T, g cfg) Case {
 		args = append(args, genArg(t, p, weighted(t, "class", names, g.classW)))
 	}
 	return Case{F: f, Args: args}
+}
+
+func isLeafType(ty spec.T) bool {
+	switch ty.K {
+	case spec.KList, spec.KSet, spec.KMap:
+		return false
+	case spec.KTuple:
+		return len(ty.Elems) == 0
+	case spec.KObject:
+		return len(ty.Attrs) == 0
+	}
+	return true
+}
+
+// dynHole replaces one position below the top of ty by the dynamic placeholder.
+func dynHole(t *rapid.T, ty spec.T) (spec.T, bool) {
+	var rec func(ty spec.T, root bool) spec.T
+	rec = func(ty spec.T, root bool) spec.T {
+		if !root && (isLeafType(ty) || rapid.IntRange(0, 1).Draw(t, "holehere") == 0) {
+			return spec.Dynamic
+		}
+		switch ty.K {
+		case spec.KList, spec.KSet, spec.KMap:
+			e := rec(*ty.E, false)
+			return spec.T{K: ty.K, E: &e}
+		case spec.KTuple:
+			i := rapid.IntRange(0, len(ty.Elems)-1).Draw(t, "holeidx")
+			es := append([]spec.T(nil), ty.Elems...)
+			es[i] = rec(es[i], false)
+			return spec.T{K: spec.KTuple, Elems: es}
+		case spec.KObject:
+			i := rapid.IntRange(0, len(ty.Attrs)-1).Draw(t, "holeidx")
+			as := append([]spec.Attr(nil), ty.Attrs...)
+			as[i] = spec.Attr{Name: as[i].Name, T: rec(as[i].T, false)}
+			return spec.T{K: spec.KObject, Attrs: as}
+		}
+		return ty
+	}
+	if isLeafType(ty) {
+		return ty, false
+	}
+	return rec(ty, true), true
+}
+
+// holeValue builds a known value whose own type is wt, placeholders included:
+// empty collections of placeholder element type, DynamicVal or a null of the
+// placeholder type as tuple / object members.
+func holeValue(t *rapid.T, wt spec.T) spec.V {
+	if !wt.HasDynamic() {
+		return gen.Value(wt, gen.ValOpts{Simple: true, MaxElems: 2, RootKnown: true, NoInf: true}).Draw(t, "holeconf")
+	}
+	switch wt.K {
+	case spec.KDynamic:
+		if rapid.Bool().Draw(t, "holenull") {
+			return spec.NullOf(spec.Dynamic)
+		}
+		return spec.DynamicVal()
+	case spec.KList, spec.KSet, spec.KMap:
+		v := spec.V{T: wt, St: spec.Known}
+		if wt.E.K != spec.KDynamic && wt.K != spec.KSet && rapid.Bool().Draw(t, "holemember") {
+			m := holeValue(t, *wt.E)
+			if m.T.Equal(*wt.E) {
+				v.Elems = []spec.V{m}
+				if wt.K == spec.KMap {
+					v.Keys = []string{"k"}
+				}
+			}
+		}
+		return v
+	case spec.KTuple:
+		v := spec.V{T: wt, St: spec.Known}
+		for _, et := range wt.Elems {
+			v.Elems = append(v.Elems, holeValue(t, et))
+		}
+		return v.Retype()
+	case spec.KObject:
+		v := spec.V{T: wt, St: spec.Known}
+		for _, a := range wt.Attrs {
+			v.Keys = append(v.Keys, a.Name)
+			v.Elems = append(v.Elems, holeValue(t, a.T))
+		}
+		return v.Retype()
+	}
+	return spec.NullOf(wt)
 }
